@@ -26,7 +26,7 @@ TIMEOUT = 1500
 
 HDR = {"avc": 2, "avcf": 2, "hevc": 3, "hevcf": 3}
 PT = {"avc": 96, "avcf": 96, "hevc": 98, "hevcf": 98, "aac": 97, "pcma": 8, "pcmu": 0, "opus": 101}
-HEVC_KNOWN = set(list(range(0, 10)) + list(range(16, 24)) + [32, 33, 34, 35, 39, 40])
+HEVC_KNOWN = set(range(48))   # every single NAL unit packet type of RFC 7798 (C07 fix 3ba6189; was: the keys of hevc.NaluTypeMapping)
 
 
 # ------------------------------------------------------------------ reference (written from the RFCs)
